@@ -170,7 +170,7 @@ class Run:
         return corr
 
 
-STATELESS = {"res", "stream"}
+STATELESS = {"res", "stream", "sort"}
 # verdict lines may carry several failing clauses separated by " ;; "
 
 
